@@ -20,6 +20,7 @@ import XotModel.Lemmas.FinvReach2
 import XotModel.Lemmas.FinvStable
 import XotModel.Lemmas.FinvValue6
 import XotModel.Lemmas.FinvReads
+import XotModel.Lemmas.FinvPrefix
 
 namespace XotModel.Props
 open XotModel
@@ -551,5 +552,47 @@ theorem C04_get_live (f : Forest) (h x : Nat) (t : HTree) (hg : f.get? h = some 
 
 example : (Forest.Read.children 0).result gapForest = [1, 2, 3] ∧
     (Forest.Read.previousSibling 2).result gapForest = [1] := by decide
+
+/-! ### `create_missing_prefixes`, `deduplicate_namespaces` in the forest model
+
+Model/FatomSpec2.lean: after a read-only walk (the tree-level models of Repair.lean / Scope.lean on
+the erased root tree) both change the store only through `namespaces_mut(n).insert(prefix, ns)` /
+`namespaces_mut(n).remove(prefix)`, i.e. through `Forest.Call`s, run in the order the Rust issues
+them (`Forest.repairCalls`, `Forest.dedupCalls`, `Forest.runCalls`). -/
+
+/-- Every call of `Forest.Call` preserves the invariant (a map insertion carrying an entry of the
+    map's kind, as the Rust API constructs it). -/
+theorem C04_call_inv (f : Forest) (hi : f.Inv) (c : Forest.Call) (hw : c.wellKinded) : (c.run f).1.Inv :=
+  Forest.call_inv hi c hw
+
+/-- … hence every sequence of them. -/
+theorem C04_runCalls (f : Forest) (hi : f.Inv) (cs : List Forest.Call) (hw : ∀ c ∈ cs, c.wellKinded) :
+    (f.runCalls cs).1.Inv := Forest.runCalls_inv cs hi hw
+
+/-- `create_missing_prefixes(node)`: for every vocabulary, every node (element, document with
+    several top-level elements, or a node it refuses), whatever it answers. -/
+theorem C04_step_prefixes (f : Forest) (hi : f.Inv) (env : Env) (node : Nat) :
+    (f.createMissingPrefixes env node).1.Inv := Forest.createMissingPrefixes_inv hi env node
+
+/-- `deduplicate_namespaces(node)`. -/
+theorem C04_step_dedup (f : Forest) (hi : f.Inv) (env : Env) (node : Nat) :
+    (f.deduplicateNamespaces env node).1.Inv := Forest.deduplicateNamespaces_inv hi env node
+
+/-- Non-vacuity: `<a:e xmlns:p="urn:u"><a:e xmlns:p="urn:u"/></a:e>` with name 1 in namespace 2 and
+    no prefix for it in scope … one `n0` declaration is created; the inner duplicate of `p` is removed. -/
+def pfxEnv : Env :=
+  { namespaces := [[], ['x'], ['u'], ['w']], prefixes := [[], ['x','m','l'], ['p']],
+    names := [(['s'], 1), (['e'], 3)] }
+def pfxForest : Forest := { roots := [.node 0 (.element 1) [.node 1 (.namespace 2 2) [],
+  .node 2 (.element 1) [.node 3 (.namespace 2 2) []]]], next := 4 }
+example : pfxForest.inv = true := by decide
+example : ((pfxForest.createMissingPrefixes pfxEnv 0).1.get? 0).map (fun t => t.kids.map (·.value)) =
+    some [.namespace 2 2, .namespace 3 3, .element 1] ∧
+    (pfxForest.createMissingPrefixes pfxEnv 0).2.2 = .ok ∧
+    (pfxForest.createMissingPrefixes pfxEnv 0).2.1.prefixes = [[], ['x','m','l'], ['p'], ['n', '0']] ∧
+    (pfxForest.createMissingPrefixes pfxEnv 2).2.2 = .ok ∧
+    (pfxForest.createMissingPrefixes pfxEnv 1).2.2 = .err .notElement := by decide +kernel
+example : (pfxForest.deduplicateNamespaces pfxEnv 0).1.allHandles = [0, 1, 2] ∧
+    (pfxForest.deduplicateNamespaces pfxEnv 0).2 = .ok := by decide +kernel
 
 end XotModel.Props
